@@ -117,6 +117,32 @@ def c05_str(pos: int, d: int, s: str) -> int:
     return verdict(literal_ok(lit, s, d == 1), "c05_str", pos=pos, d=d, s=s)
 
 
+@harness(
+    prop="C05",
+    cubes={"d": [0, 2, 3, 4, 5]},
+    bounds={"quick": {"L": 3}, "thorough": {"L": 5}},
+    timeout={"quick": 120, "thorough": 1200},
+    witness=[dict(d=2, s="it's", interval=False), dict(d=0, s="-06:00", interval=True)],
+    doc="the zone string of AT TIME ZONE (any code points, len<=L; plain and INTERVAL form) x the 5 dialect classes that have "
+        "the construct: one literal decoding to the value",
+)
+def c05_zone(d: int, s: str, interval: bool) -> int:
+    """
+    bound: len(s) <= L
+    """
+    from pypika_tortoise.terms import AtTimezone
+    t = Table("t")
+    interval = bool(interval)
+    out = QS[d].from_(t).select(AtTimezone(t.a, s, interval=interval)).get_sql(dctx(d))
+    tpl = QS[d].from_(t).select(AtTimezone(t.a, PROBE, interval=interval)).get_sql(dctx(d)).split("'" + PROBE + "'")
+    note("sql", out)
+    if len(tpl) != 2 or not out.startswith(tpl[0]) or not out.endswith(tpl[1]) or len(out) < len(tpl[0]) + len(tpl[1]):
+        return verdict(False, "c05_zone", d=d, s=s, interval=interval)
+    lit = out[len(tpl[0]):len(out) - len(tpl[1])]
+    note("literal", lit)
+    return verdict(literal_ok(lit, s, False), "c05_zone", d=d, s=s, interval=interval)
+
+
 # ---- stubbed stdlib encoders ---------------------------------------------------------------
 class _Date(datetime.date):
     def __new__(cls, text):
